@@ -53,7 +53,7 @@ class Prop:
             "event log (operations, outcomes, eval calls)")
     probes = ["op_scalar", "op_array", "op_view_create", "op_on_view", "op_on_packed_view", "expect_indexerror_order",
               "expect_indexerror_finite", "expect_runtimeerror_cycle", "masked_result", "precached_read",
-              "dep_nested_eval", "dep_slice_eval", "npint_index", "cycle_len1", "cycle_len2", "cycle_len3", "view_of_view", "wrong_length"]
+              "dep_nested_eval", "dep_slice_eval", "dep_view_eval", "npint_index", "cycle_len1", "cycle_len2", "cycle_len3", "view_of_view", "wrong_length"]
     components_real = ["pymablock.series.BlockSeries (__getitem__, views, _check_finite, _check_number_perturbations)"]
     components_stub = ["element eval callbacks (simulator-owned table with dependency edges)", "series names (token_hex counter)"]
     assumptions = ["orders < 5, at most 3 finite and 2 infinite dimensions, sizes 1-3",
@@ -82,7 +82,7 @@ class Prop:
             a = self._rand_index(r, roots[s])
             t = r.randrange(nroots)
             b = self._rand_index(r, roots[t])
-            kind = ["sl"] if r.random() < 0.3 else []
+            kind = [r.choice(["sl", "vw", "vw"])] if r.random() < 0.45 else []
             if self._rank(roots, t, b) < self._rank(roots, s, a):
                 edges.append([s, a, t, b] + (kind if roots[t]["ninf"] else []))
             elif self._rank(roots, s, a) < self._rank(roots, t, b):
@@ -210,7 +210,12 @@ class Prop:
         for e in case["edges"]:
             s, a, t, b = e[:4]
             if s < nroots and t < nroots and self._valid(roots_spec, s, a) and self._valid(roots_spec, t, b):
-                if len(e) > 4 and roots_spec[t]["ninf"]:
+                if len(e) > 4 and e[4] == "vw" and roots_spec[t]["ninf"] and roots_spec[t]["shape"]:
+                    # the eval goes through an all-integer view of the other series
+                    nf = len(roots_spec[t]["shape"])
+                    deps = [(t, tuple(b))]
+                    requests.setdefault((s, tuple(a)), []).append((t, ("view", tuple(b[:nf]), tuple(b[nf:]))))
+                elif len(e) > 4 and e[4] == "sl" and roots_spec[t]["ninf"]:
                     # the eval asks for a slice over the last order: all lower orders of the same block
                     deps = [(t, tuple(b[:-1]) + (m,)) for m in range(b[-1] + 1)]
                     requests.setdefault((s, tuple(a)), []).append((t, tuple(b[:-1]) + (slice(0, b[-1] + 1),)))
@@ -281,6 +286,10 @@ class Prop:
                 events.append(("eval", s, index))
                 for t, b in requests.get((s, index), ()):
                     bump("dep_nested_eval")
+                    if b and b[0] == "view":
+                        bump("dep_view_eval")
+                        real_roots[t][b[1]][b[2]]
+                        continue
                     if isinstance(b[-1], slice):
                         bump("dep_slice_eval")
                     real_roots[t][b]
